@@ -96,3 +96,98 @@ def extra_run(ctx, res):
             res.oracle_case("subcircuit_runs_like_prepare_measure", False, case, f"JaqalError: {e}")
         finally:
             signal.alarm(0)
+    _reachability(ctx, res, R)
+
+
+def _macro_program(rng):
+    """Programs whose subcircuit blocks sit inside macros that are called from other macros, loops and blocks."""
+    nm = rng.randrange(1, 5)
+    lines = [f"register r[{W.NQ}]"]
+    has_sub = []
+    for i in range(nm):
+        body = []
+        for _ in range(rng.randrange(1, 4)):
+            c = rng.random()
+            callees = [j for j in range(i)]
+            if callees and c < 0.45:
+                j = rng.choice(callees)
+                body.append(f"m{j} a")
+            elif c < 0.75:
+                inner = rng.choice(["X a", "X a; X a", "", "loop 2 { X a }"])
+                cnt = rng.choice(["", "", "3 "])
+                body.append(f"subcircuit {cnt}{{ {inner} }}")
+            elif c < 0.9:
+                body.append("loop 2 { subcircuit { X a } }")
+            else:
+                body.append("X a")
+        lines.append(f"macro m{i} a {{ " + " ; ".join(body) + " }")
+    main = []
+    for _ in range(rng.randrange(1, 4)):
+        j = rng.randrange(nm)
+        q = f"r[{rng.randrange(W.NQ)}]"
+        c = rng.random()
+        if c < 0.5:
+            main.append(f"m{j} {q}")
+        elif c < 0.8:
+            main.append(f"loop {rng.randrange(0, 3)} {{ m{j} {q} }}")
+        else:
+            main.append(f"{{ m{j} {q} }}")
+    return "\n".join(lines + main) + "\n"
+
+
+def _reachability(ctx, res, R):
+    """`leaves no subcircuit block behind`: nothing reachable from the result — through blocks, loops, macro bodies AND the
+    definitions the macro calls of the result point at — is a subcircuit block; the analyses that follow those
+    definitions agree with the explicit spelling."""
+    from jaqalpaq.core.algorithm import expand_subcircuits, get_used_qubit_indices, expand_macros
+    from jaqalpaq.core import BlockStatement, LoopStatement, GateStatement, Macro
+
+    rng = ctx.rng.sub("extra_c09_reach")
+
+    def left(c):
+        seen = set()
+        bad = []
+
+        def st(s, where):
+            if isinstance(s, BlockStatement):
+                if s.subcircuit:
+                    bad.append(where)
+                for k, x in enumerate(s.statements):
+                    st(x, where + [k])
+            elif isinstance(s, LoopStatement):
+                st(s.statements, where + ["loop"])
+            elif isinstance(s, GateStatement):
+                gd = s.gate_def
+                if isinstance(gd, Macro) and id(gd) not in seen:
+                    seen.add(id(gd))
+                    st(gd.body, where + [f"call {s.name}"])
+
+        st(c.body, ["body"])
+        for n, m in c.macros.items():
+            st(m.body, [f"macro {n}"])
+        return bad
+
+    for _ in range(ctx.n(150, 1500)):
+        text = _macro_program(rng)
+        case = {"text": text}
+        signal.alarm(_T.limit(2))
+        try:
+            c = R["parse"](text, inject_pulses=R["GI"], autoload_pulses=False)
+            e = expand_subcircuits(c)
+            bad = left(e)
+            res.oracle_case("no_subcircuit_reachable", not bad, case, "subcircuit block reachable from the result at " + repr(bad[:3]))
+            # the same circuit after the later passes, and the analysis that follows macro definitions
+            bad2 = left(expand_macros(e))
+            res.oracle_case("no_subcircuit_reachable", not bad2, case, "subcircuit block reachable after expand_macros at " + repr(bad2[:3]))
+            ua = get_used_qubit_indices(e)
+            ub = get_used_qubit_indices(expand_macros(e))
+            norm = lambda u: {k: sorted(v) for k, v in u.items() if v}
+            res.oracle_case("used_qubits_follow_expanded_definitions", norm(ua) == norm(ub), case,
+                            f"used qubits of the expanded circuit {norm(ua)} differ from those after macro expansion {norm(ub)}")
+        except W.Hang:
+            _T.saw_hang()
+            res.oracle_case("terminates", False, case, "no result within the time limit")
+        except R["JaqalError"] as ex:
+            res.oracle_case("no_subcircuit_reachable", False, case, f"JaqalError on a valid program: {ex}")
+        finally:
+            signal.alarm(0)
